@@ -20,7 +20,7 @@ def anomaly(line):
 
 
 def scenario_of(seg):
-    return {"steps": [l["ms"] for l in seg[1:]]}
+    return {"steps": [l["ms"] if l.get("a") == "Deliver" else [{"item": l.get("item"), "t": 0, "v": 0}] for l in seg[1:]]}
 
 
 def validate(ctx, trace_path, via, label):
@@ -34,6 +34,11 @@ def validate(ctx, trace_path, via, label):
         line, seg = keep[b - 1], ctx.segment(keep, b)
         tags = ctx.last_tags.get(b, ["unconsumed"])
         pre = seg[-2]["post"] if len(seg) > 1 else {}
+        if line.get("a") == "Touch":
+            ctx.violation("touch:" + "+".join(tags), "recording a cancel request for %s changed the exchange-reported data held: %s -> %s [%s line %d]" % (
+                line.get("item"), json.dumps(pre.get(line.get("item"))), json.dumps(line["post"].get(line.get("item"))), label, b),
+                {"via": via, "scenario": scenario_of(seg)})
+            continue
         kinds = sorted({m["item"].split("_")[0].rstrip("0123456789") for m in line.get("ms", [])})
         rel = []
         for m in line.get("ms", []):
